@@ -102,6 +102,9 @@ func (s *Stats) NoteOutcome(o *Outcome) {
 		if st.DataWithEOF {
 			s.Probes["read_returned_data_and_eof"]++
 		}
+		if st.ErrWithData {
+			s.Probes["read_returned_data_and_error"]++
+		}
 		if st.ZeroReads > 0 {
 			s.Probes["zero_length_read"]++
 		}
